@@ -238,3 +238,48 @@ PROPS["C07"] = {
         plain_unit("replay", "^TestC07_Replay$", replay=True),
     ],
 }
+
+# ------------------------------------------------------------------------------------------------
+# C12 (harness written by a sub-agent, reviewed; see harness/notes/C12.md)
+PROPS["C12"] = {
+    "level": "exploration",
+    "rule": ("Layer 1 (pure): CompareAofId reflexive/antisymmetric and = 'b is a advanced by d files/records => b newer' for every "
+             "d < 0x7fffffff00000000 incl. file-index wrap-around, command time as tie-break; Format/ParseAofId round trips and "
+             "refusal of malformed text; ArbiterStore Save->Load round trip of members (host, weight, arbiter), owner, gid, version, "
+             "vertime, commit id, and Load seeding accepted = committed. Layer 2 (acceptor): 3..5 real ArbiterManagers started through "
+             "Load from scratch dirs (meta.pb + aof tail), 2..3 protocol-abiding abstract candidates with 1..2 candidacies each and "
+             "colliding numbers, shuffled proposal/commit deliveries to the real handlers / DoSelf*, lost requests, lost replies, "
+             "restarts of pure acceptors from their saved metadata. Layer 3 (voter, engine V): the real DoVote/DoProposal/DoCommit of "
+             "2..3 candidates (<=3 rounds) over net.Pipe-backed ArbiterClients, every delivery / loss / reply loss / restart / phase start "
+             "chosen by the case's schedule at quiescent points. Oracles: numbers never decrease (also across restarts); handler "
+             "preconditions (n > accepted, n > committed, no pending commit; commit only for the accepted number, once); members with a "
+             "newer own log refuse; at most one recorded commit majority (layer 2) / at most one successful DoCommit, success implies a "
+             "recorded majority (layer 3); DoVote picks the eligible responder with the newest log (ties weight, host) iff a majority "
+             "answered. Non-trivial: layers 2/3 - two different candidates' proposals were delivered at one acceptor while the earlier "
+             "candidacy was not concluded; CompareAofId - file index wrapped between the positions or equal file position with different "
+             "command time; store - >=3 members of >=2 kinds and commit id > 0. Distinct = FNV-64 of the whole case."),
+    "assumptions": [
+        "no announcement, offline/online event or membership change is injected between candidacies (property quantifier); a lost "
+        "message fails the pending Request and the connection is there again for the next one (ArbiterClient.Run's reconnect/offline "
+        "handling is replaced by its bare read loop)",
+        "only members that are not candidates restart; frames in flight to a restarting member are lost; the harness never calls "
+        "ArbiterStore.Save after the setup (none of the simulated code paths does)",
+        "all log positions of a case lie within 4 aof files of the case's origin index (total order, far from the ambiguous half range); "
+        "file index 0xffffffff is not generated (Aof.FindAofFiles cannot enumerate it)",
+        "layer 3 runs a candidate's local self-call at the start of its phase (before any other delivery of that phase); other "
+        "placements of the self-call are covered by layer 2",
+        "voteSucced()/announcements are not executed: the election is observed up to the return of DoCommit",
+        "while a finding is listed as known: F1 - all positions of a case share one aof file; F2 - restarts that would forget an unsaved "
+        "number are skipped; F3 - a candidate whose number was overwritten gives the round up; F3/F4/F5 - verdicts at a member whose "
+        "acceptor state was corrupted by the known defect (and the two-winner verdict of that execution) are withheld and counted",
+    ],
+    "units": [
+        rapid_unit("pure", "^TestC12_Pure_", quick={"checks": 16000, "shards": 2, "timeout_s": 300},
+                   thorough={"checks": 400000, "shards": 4, "timeout_s": 1500}),
+        rapid_unit("acceptor", "^TestC12_Acceptor$", quick={"checks": 24000, "shards": 4, "timeout_s": 300},
+                   thorough={"checks": 1200000, "shards": 6, "timeout_s": 1500}),
+        rapid_unit("voter", "^TestC12_Voter$", quick={"checks": 48000, "shards": 8, "timeout_s": 300},
+                   thorough={"checks": 900000, "shards": 6, "timeout_s": 1500}),
+        plain_unit("replay", "^TestC12_Replay$", replay=True),
+    ],
+}
